@@ -24,7 +24,7 @@ def run(ctx):
     small = lambda e: {k: (v if not isinstance(v, dict) else "{%d constants}" % len(v)) for k, v in e.items()}
     ctx.cov["samples"] += [small(ev[0]), small([e for e in ev if e["op"] == "pool"][0])]
     # cross-check: constants declared in the source that the driver's name table does not know (drift, not a verdict)
-    src = "/repo/programs/store/src/constants/market.rs"
+    src = vlib.REPO + "/programs/store/src/constants/market.rs"
     if os.path.exists(src):
         declared = set(re.findall(r"pub const (DEFAULT_[A-Z0-9_]+)", open(src).read()))
         known = set(ev[0]["consts"].keys())
